@@ -962,3 +962,269 @@ Lemma periph_new_ok a o pi_i pi_q dsz : 0 <= a < 128 -> (length pi_q <= 244)%nat
   match o_config o with Some c => (length c <= 244)%nat | None => True end ->
   periph_ok (periph_new a o pi_i pi_q dsz).
 Proof. intros Ha Hq Hu Hc. unfold periph_ok, periph_new. cbn. repeat split; try assumption; try lia. discriminate. Qed.
+
+(* ------------------------------------------------------------------------------------------ *)
+(* Part 3: live list and DP scanner                                                             *)
+
+(* invariant: the cursor is an address 0..125 - ANY station set, any uncollected event, either value of
+   current_address_done; waiting for da: da is an address 0..125 (the applications index a 128-bit array
+   with it, C18_panic_outside_contract) *)
+Definition ll_ok (s : ll) : Prop := 0 <= ll_cursor s <= 125.
+Definition sc_ok (s : scanner) : Prop := 0 <= sc_cursor s <= 125.
+Definition scan_waiting (da : Z) : Prop := 0 <= da <= 125.
+
+Lemma frame_spec_small h : Z.of_nat (length (frame_spec h [])) <= 65536.
+Proof.
+  rewrite frame_spec_length. unfold telegram_len_data, length_byte. cbn [length].
+  destruct (h_dsap h), (h_ssap h); cbn; lia.
+Qed.
+
+Theorem ll_contract : apps_contract ll ll_app_ops ll_ok (fun _ => scan_waiting).
+Proof.
+  split; [|split].
+  - intros s now p hp Hs B Tn. cbn [a_tx ll_app_ops]. destruct (bv_addr_retry p B) as (Hts & _).
+    unfold ll_transmit. destruct (ll_done s).
+    + cbn [bind sb_result]. eexists; eexists. split; [reflexivity|]. split; [|exact I].
+      unfold ll_ok, LL_LAST, LL_FIRST in *. cbn [ll_cursor]. destruct (Z.ltb_spec (ll_cursor s) 125); lia.
+    + rewrite (send_request_ok _ (ll_request_wf (p_address p) (ll_cursor s) Hts Hs)). cbn [bind sb_result tx_wire tx_exp].
+      eexists; eexists. split; [reflexivity|]. split; [exact Hs|]. split; [apply frame_spec_small|].
+      intros da E. apply expects_reply_da in E. subst da. exact Hs.
+  - intros s now p addr t Hs Hw B Tn _. cbn [a_rx ll_app_ops]. rewrite (ll_receive_ok s addr t Hw).
+    eexists. split; [reflexivity|]. unfold ll_ok. destruct (Z.testbit (ll_stations s) addr); exact Hs.
+  - intros s now p addr Hs Hw B Tn. cbn [a_to ll_app_ops]. rewrite (ll_timeout_ok s addr Hw).
+    eexists. split; [reflexivity|]. unfold ll_ok. destruct (Z.testbit (ll_stations s) addr); exact Hs.
+Qed.
+
+Theorem sc_contract : apps_contract scanner sc_app_ops sc_ok (fun _ => scan_waiting).
+Proof.
+  split; [|split].
+  - intros s now p hp Hs B Tn. cbn [a_tx sc_app_ops]. destruct (bv_addr_retry p B) as (Hts & _).
+    unfold sc_transmit. destruct (sc_done s).
+    + cbn [bind sb_result]. eexists; eexists. split; [reflexivity|]. split; [|exact I].
+      unfold sc_ok, SC_LAST, SC_FIRST in *. cbn [sc_cursor]. destruct (Z.ltb_spec (sc_cursor s) 125); lia.
+    + rewrite (send_request_ok _ (sc_request_wf (p_address p) (sc_cursor s) Hts Hs)). cbn [bind sb_result tx_wire tx_exp].
+      eexists; eexists. split; [reflexivity|]. split; [exact Hs|]. split; [apply frame_spec_small|].
+      intros da E. apply expects_reply_da in E. subst da. exact Hs.
+  - intros s now p addr t Hs Hw B Tn _. cbn [a_rx sc_app_ops]. destruct (sc_parse_total t) as (d & Ed).
+    rewrite (sc_receive_ok s addr t d Hw Ed).
+    eexists. split; [reflexivity|]. unfold sc_ok. destruct d; [cbv zeta; destruct (Z.testbit (sc_stations s) addr)|]; exact Hs.
+  - intros s now p addr Hs Hw B Tn. cbn [a_to sc_app_ops]. rewrite (sc_timeout_ok s addr Hw).
+    eexists. split; [reflexivity|]. unfold sc_ok. destruct (Z.testbit (sc_stations s) addr); exact Hs.
+Qed.
+
+(* ------------------------------------------------------------------------------------------ *)
+(* Part 4: any mixture of the applications in one list                                          *)
+
+Definition any_ok (a : any_app) : Prop :=
+  match a with AppUnit => True | AppDp m => DpRep m | AppLl s => ll_ok s | AppSc s => sc_ok s end.
+Definition any_waiting (a : any_app) (da : Z) : Prop :=
+  match a with AppUnit => False | AppDp m => dp_waiting m da | AppLl _ => scan_waiting da | AppSc _ => scan_waiting da end.
+
+Theorem any_contract : apps_contract any_app any_app_ops any_ok any_waiting.
+Proof.
+  destruct dp_contract as (Dtx & Drx & Dto). destruct ll_contract as (Ltx & Lrx & Lto). destruct sc_contract as (Stx & Srx & Sto).
+  split; [|split].
+  - intros [|m|s|s] now p hp Ha B Tn; cbn [a_tx any_app_ops any_ok] in *.
+    + exists AppUnit, None. split; [reflexivity|]. split; exact I.
+    + destruct (Dtx m now p hp Ha B Tn) as (m' & r & E & Ha' & Hr). rewrite E. cbn [bind]. exists (AppDp m'), r. split; [reflexivity|]. split; [exact Ha'|exact Hr].
+    + destruct (Ltx s now p hp Ha B Tn) as (s' & r & E & Ha' & Hr). rewrite E. cbn [bind]. exists (AppLl s'), r. split; [reflexivity|]. split; [exact Ha'|exact Hr].
+    + destruct (Stx s now p hp Ha B Tn) as (s' & r & E & Ha' & Hr). rewrite E. cbn [bind]. exists (AppSc s'), r. split; [reflexivity|]. split; [exact Ha'|exact Hr].
+  - intros [|m|s|s] now p addr t Ha Hw B Tn Rk; cbn [a_rx any_app_ops any_ok any_waiting] in *.
+    + contradiction Hw.
+    + destruct (Drx m now p addr t Ha Hw B Tn Rk) as (m' & E & Ha'). rewrite E. exists (AppDp m'). split; [reflexivity|exact Ha'].
+    + destruct (Lrx s now p addr t Ha Hw B Tn Rk) as (s' & E & Ha'). rewrite E. exists (AppLl s'). split; [reflexivity|exact Ha'].
+    + destruct (Srx s now p addr t Ha Hw B Tn Rk) as (s' & E & Ha'). rewrite E. exists (AppSc s'). split; [reflexivity|exact Ha'].
+  - intros [|m|s|s] now p addr Ha Hw B Tn; cbn [a_to any_app_ops any_ok any_waiting] in *.
+    + contradiction Hw.
+    + destruct (Dto m now p addr Ha Hw B Tn) as (m' & E & Ha'). rewrite E. exists (AppDp m'). split; [reflexivity|exact Ha'].
+    + destruct (Lto s now p addr Ha Hw B Tn) as (s' & E & Ha'). rewrite E. exists (AppLl s'). split; [reflexivity|exact Ha'].
+    + destruct (Sto s now p addr Ha Hw B Tn) as (s' & E & Ha'). rewrite E. exists (AppSc s'). split; [reflexivity|exact Ha'].
+Qed.
+
+(* ------------------------------------------------------------------------------------------ *)
+(* User calls on the DP master between polls: they keep DpRep and keep the master waiting        *)
+
+Lemma get_at_index_put_same_addr l index hd p j q0 q : slots_ok l ->
+  get_at_index l index = Ok (Some (hd, p)) -> nth_error l j = Some (Some q0) -> pe_addr q = pe_addr q0 ->
+  exists hd' p', get_at_index (put_slot l j q) index = Ok (Some (hd', p')) /\ pe_addr p' = pe_addr p.
+Proof.
+  intros S Eg Ej Ea.
+  destruct (get_at_index_ok l index S) as [E|(i & p0 & E & Hn & Hi & Pok & Hl)]; rewrite E in Eg; [discriminate Eg|].
+  injection Eg as <- <-.
+  destruct (Nat.eq_dec j i) as [->|Ne].
+  - rewrite Hn in Ej. injection Ej as <-. eexists; eexists. split; [eapply get_at_index_put; eassumption|exact Ea].
+  - exists (mkHandle i (pe_addr p0)), p0. split; [|reflexivity].
+    unfold get_at_index in *.
+    destruct (find_occupied (skipn index l) index) as [[i0 q1]|] eqn:Ef; [|discriminate E].
+    unfold u8_index in E. destruct (Nat.ltb 255 i0) eqn:E255; [discriminate E|]. cbn [bind] in E. injection E as Ei _ Eq. subst i0 q1.
+    apply find_occupied_spec in Ef. destruct Ef as (k & -> & Hk & Hb).
+    assert (Ef' : find_occupied (skipn index (put_slot l j q)) index = Some ((index + k)%nat, p0)).
+    { apply find_occupied_spec. exists k. split; [reflexivity|]. split.
+      - rewrite nth_error_skipn', nth_error_put_slot.
+        destruct (Nat.eqb_spec (index + k) j); [lia|]. cbn [andb]. exact Hn.
+      - intros k' L. rewrite nth_error_skipn', nth_error_put_slot.
+        destruct (Nat.eqb_spec (index + k') j) as [<-|_]; cbn [andb].
+        + specialize (Hb k' L). rewrite nth_error_skipn' in Hb. congruence.
+        + rewrite <- nth_error_skipn'. apply Hb. exact L. }
+    rewrite Ef'. unfold u8_index. rewrite E255. reflexivity.
+Qed.
+
+Lemma dp_replace_ok m j q0 q : DpRep m -> nth_error (dm_slots m) j = Some (Some q0) ->
+  periph_ok q -> pe_addr q = pe_addr q0 ->
+  DpRep (set_slots m (put_slot (dm_slots m) j q)) /\
+  forall da, dp_waiting m da -> dp_waiting (set_slots m (put_slot (dm_slots m) j q)) da.
+Proof.
+  intros (S & G) Ej Qok Ea. destruct (S _ _ Ej) as (Hj & _). split.
+  - split; [apply slots_ok_put; assumption|exact G].
+  - intros da (index & hd & p & Hc & Eg & Hda).
+    destruct (get_at_index_put_same_addr _ _ _ _ _ _ _ S Eg Ej Ea) as (hd' & p' & Eg' & Ha').
+    exists index, hd', p'. split; [exact Hc|]. split; [exact Eg'|congruence].
+Qed.
+
+(* the user calls as functions on the master (a call that panics - foreign handle, wrong length - is
+   not part of a history) *)
+Definition u_take_last_events (m : dpm) : dpm := fst (dp_take_last_events m).
+Definition u_enter_state (s : opstate) (m : dpm) : dpm := dp_enter_state_unwound m s.
+Definition u_request_diagnostics (h : handle) (m : dpm) : dpm :=
+  match dp_request_diagnostics m h with Ok m' => m' | _ => m end.
+Definition u_write_q (h : handle) (q : bytes) (m : dpm) : dpm :=
+  match dp_write_q m h q with Ok m' => m' | _ => m end.
+
+Lemma dp_user_calls_ok :
+  user_ok dpm DpRep dp_waiting u_take_last_events /\
+  (forall s, user_ok dpm DpRep dp_waiting (u_enter_state s)) /\
+  (forall h, user_ok dpm DpRep dp_waiting (u_request_diagnostics h)) /\
+  (forall h q, user_ok dpm DpRep dp_waiting (u_write_q h q)).
+Proof.
+  split; [|split; [|split]].
+  - split; [intros m D; exact D|intros m da _ W; exact W].
+  - intros s. split; [intros m (S & _); split; [exact S|exact I]|intros m da _ W; exact W].
+  - intros h.
+    assert (K : forall m, DpRep m -> DpRep (u_request_diagnostics h m) /\ forall da, dp_waiting m da -> dp_waiting (u_request_diagnostics h m) da).
+    { intros m D. unfold u_request_diagnostics, dp_request_diagnostics, dp_update, dp_get_mut.
+      destruct (nth_error (dm_slots m) (hd_index h)) as [[p|]|] eqn:E; cbn [bind]; try (split; [exact D|tauto]).
+      destruct D as (S & G). destruct (S _ _ E) as (_ & Pok).
+      apply (dp_replace_ok m (hd_index h) p); [split; assumption|exact E| |reflexivity].
+      eapply periph_ok_frame; [exact Pok| | | |]; reflexivity. }
+    split; [intros m D; apply K, D|intros m da D W; apply K; assumption].
+  - intros h q.
+    assert (K : forall m, DpRep m -> DpRep (u_write_q h q m) /\ forall da, dp_waiting m da -> dp_waiting (u_write_q h q m) da).
+    { intros m D. unfold u_write_q, dp_write_q, dp_get_mut.
+      destruct (nth_error (dm_slots m) (hd_index h)) as [[p|]|] eqn:E; cbn [bind]; try (split; [exact D|tauto]).
+      unfold copy_from_slice. destruct (Nat.eqb_spec (length (pe_pi_q p)) (length q)) as [El|_]; cbn [bind]; [|split; [exact D|tauto]].
+      destruct D as (S & G). destruct (S _ _ E) as (_ & Pok).
+      apply (dp_replace_ok m (hd_index h) p); [split; assumption|exact E| |reflexivity].
+      destruct Pok as (Ha & Hf & Hq & Hu & Hc). unfold periph_ok. cbn. rewrite <- El. tauto. }
+    split; [intros m D; apply K, D|intros m da D W; apply K; assumption].
+Qed.
+
+(* DpMaster::add keeps DpRep (a panic - full fixed storage, 257th slot - is not part of a history) *)
+Lemma dp_add_rep m p : DpRep m -> periph_ok p ->
+  match dp_add m p with Ok (m', _) => DpRep m' | _ => True end.
+Proof.
+  intros (S & G) Pok. unfold dp_add.
+  destruct (first_free (dm_slots m) 0) as [i|].
+  - unfold u8_index. destruct (Nat.ltb_spec 255 i); cbn [bind]; [exact I|].
+    split; [apply slots_ok_put; [exact S|lia|exact Pok]|exact G].
+  - destruct (dm_owned m); [|exact I]. unfold u8_index.
+    destruct (Nat.ltb_spec 255 (length (dm_slots m))); cbn [bind]; [exact I|].
+    split; [|exact G]. intros j q E. cbn [dm_slots set_slots] in E.
+    destruct (Nat.lt_ge_cases j (length (dm_slots m))) as [L|L].
+    + rewrite nth_error_app1 in E by exact L. apply S; exact E.
+    + rewrite nth_error_app2 in E by exact L.
+      destruct (j - length (dm_slots m))%nat as [|d] eqn:Ed; cbn in E; [|destruct d; discriminate E].
+      injection E as <-. split; [lia|exact Pok].
+Qed.
+
+(* a user call on the i-th application if it is a DP master *)
+Definition on_dp (g : dpm -> dpm) (a : any_app) : any_app :=
+  match a with AppDp m => AppDp (g m) | _ => a end.
+
+Lemma on_dp_ok g : user_ok dpm DpRep dp_waiting g -> user_ok any_app any_ok any_waiting (on_dp g).
+Proof.
+  intros (G1 & G2). split.
+  - intros [|m|s|s] H; cbn in *; try exact H. apply G1, H.
+  - intros [|m|s|s] da H W; cbn in *; try exact W. apply G2; assumption.
+Qed.
+
+(* ------------------------------------------------------------------------------------------ *)
+(* The composition: Fdl.poll with the real applications never panics                            *)
+
+Definition any_ev := app_ev any_app.
+Definition any_ev_ok : any_ev -> Prop := app_ev_ok any_app any_ok any_waiting.
+Definition run_any := run_app_events any_app any_app_ops.
+
+(* one poll, from any station state satisfying Rep and any application states satisfying their
+   invariants *)
+Theorem poll_with_apps_step (f : fdl) (now : Z) (pin : phy_in) (apps : list any_app) :
+  Rep (length apps) f -> AppsInv any_app any_ok any_waiting f apps -> time_ok now -> all_bytes (rx pin) ->
+  exists f' o apps' c, Fdl.poll any_app_ops f now pin apps = Ok (f', o, apps', c) /\
+    Rep (length apps) f' /\ AppsInv any_app any_ok any_waiting f' apps' /\ length apps' = length apps.
+Proof. exact (poll_rep_stepA any_app any_app_ops any_ok any_waiting any_contract f now pin apps). Qed.
+
+Theorem no_panic_with_apps (p : params) (apps : list any_app) (evs : list any_ev) :
+  builder_valid p -> Forall any_ok apps -> Forall any_ev_ok evs ->
+  exists f0 f' apps', fdl_new p = Ok f0 /\ run_any f0 apps evs = Ok (f', apps') /\
+    Rep (length apps) f' /\ Forall any_ok apps' /\ length apps' = length apps.
+Proof.
+  intros B Fa F.
+  destruct (no_panic_contract any_app any_app_ops any_ok any_waiting any_contract p apps evs B Fa F)
+    as (f0 & f' & apps' & E0 & E & R & (Fa' & _) & L).
+  exists f0, f', apps'. tauto.
+Qed.
+
+(* the single-application instances: poll(now, phy, &mut dp_master) etc. *)
+Theorem no_panic_dp_master (p : params) (m : dpm) (evs : list (app_ev dpm)) :
+  builder_valid p -> DpRep m -> Forall (app_ev_ok dpm DpRep dp_waiting) evs ->
+  exists f0 f' m', fdl_new p = Ok f0 /\ run_app_events dpm dp_app_ops f0 [m] evs = Ok (f', [m']) /\
+    Rep 1 f' /\ DpRep m'.
+Proof.
+  intros B D F.
+  destruct (no_panic_contract dpm dp_app_ops DpRep dp_waiting dp_contract p [m] evs B (Forall_cons _ D (Forall_nil _)) F)
+    as (f0 & f' & apps' & E0 & E & R & (Fa' & _) & L).
+  destruct apps' as [|m' [|x t]]; try discriminate L. inversion Fa'; subst.
+  exists f0, f', m'. tauto.
+Qed.
+
+Theorem no_panic_live_list (p : params) (s : ll) (evs : list (app_ev ll)) :
+  builder_valid p -> ll_ok s -> Forall (app_ev_ok ll ll_ok (fun _ => scan_waiting)) evs ->
+  exists f0 f' s', fdl_new p = Ok f0 /\ run_app_events ll ll_app_ops f0 [s] evs = Ok (f', [s']) /\
+    Rep 1 f' /\ ll_ok s'.
+Proof.
+  intros B D F.
+  destruct (no_panic_contract ll ll_app_ops ll_ok _ ll_contract p [s] evs B (Forall_cons _ D (Forall_nil _)) F)
+    as (f0 & f' & apps' & E0 & E & R & (Fa' & _) & L).
+  destruct apps' as [|s' [|x t]]; try discriminate L. inversion Fa'; subst.
+  exists f0, f', s'. tauto.
+Qed.
+
+Theorem no_panic_scanner (p : params) (s : scanner) (evs : list (app_ev scanner)) :
+  builder_valid p -> sc_ok s -> Forall (app_ev_ok scanner sc_ok (fun _ => scan_waiting)) evs ->
+  exists f0 f' s', fdl_new p = Ok f0 /\ run_app_events scanner sc_app_ops f0 [s] evs = Ok (f', [s']) /\
+    Rep 1 f' /\ sc_ok s'.
+Proof.
+  intros B D F.
+  destruct (no_panic_contract scanner sc_app_ops sc_ok _ sc_contract p [s] evs B (Forall_cons _ D (Forall_nil _)) F)
+    as (f0 & f' & apps' & E0 & E & R & (Fa' & _) & L).
+  destruct apps' as [|s' [|x t]]; try discriminate L. inversion Fa'; subst.
+  exists f0, f', s'. tauto.
+Qed.
+
+(* non-vacuity: a master with two peripherals in a four-slot storage, a live list and a scanner *)
+Definition demo_periph (a : Z) : periph := periph_new a (mkOpts 4711 false false 0 0 false (Some [1; 2; 3]) (Some [33])) [0] [0; 0] 8.
+Definition demo_master : dpm :=
+  match dp_add (dp_new 4 false) (demo_periph 8) with
+  | Ok (m1, _) => match dp_add m1 (demo_periph 9) with Ok (m2, _) => dp_enter_state_unwound m2 OpOperate | _ => m1 end
+  | _ => dp_new 4 false
+  end.
+
+Lemma demo_master_rep : DpRep demo_master /\ occupied demo_master = [0%nat; 1%nat] /\
+  Forall any_ok [AppDp demo_master; AppLl ll_new; AppSc sc_new; AppUnit].
+Proof.
+  assert (D : DpRep demo_master).
+  { split; [|exact I]. intros [|[|[|[|i]]]] q E; cbn in E; try discriminate E; try (destruct i; discriminate E);
+      injection E as <-; (split; [lia|]); apply periph_new_ok; cbn; lia. }
+  split; [exact D|]. split; [reflexivity|].
+  constructor; [exact D|]. constructor; [cbv; split; congruence|]. constructor; [cbv; split; congruence|].
+  constructor; [exact I|constructor].
+Qed.
